@@ -49,7 +49,18 @@ pub fn gen_flow(
                 generate(expr_or_stmt, &env.raises_caught(&raises), ctx, constr)?;
             outer_env.raises_caught = raises_before;
 
-            constrain_cases(ast, &None, cases, &outer_env, ctx, constr)
+            let cases_env = constrain_cases(ast, &None, cases, &outer_env, ctx, constr)?;
+            // As an expression, a handle evaluates to the handled expression when nothing is
+            // raised, so that expression is held to what is expected of the handle, as the arms are.
+            if env.is_expr {
+                constr.add(
+                    "handled expression and outer",
+                    &Expected::from(ast),
+                    &Expected::from(expr_or_stmt),
+                    &outer_env,
+                );
+            }
+            Ok(cases_env)
         }
 
         Node::IfElse {
